@@ -5,10 +5,11 @@ import Driver.OpsGraph
 import Driver.OpsHistory
 import Driver.OpsLearn
 import Driver.OpsScore
+import Driver.OpsSearch
 open Lean PgmVerif PgmVerif.Drv
 
 def handlers : List (String → Json → Option (Except String Json)) :=
-  [handleFactor, handleCPD, handleGraph, handleHistory, handleLearn, handleScore]
+  [handleFactor, handleCPD, handleGraph, handleHistory, handleLearn, handleScore, handleSearch]
 
 def handle (op : String) (j : Json) : Except String Json :=
   match handlers.findSome? (fun h => h op j) with
